@@ -31,6 +31,11 @@ def gen_filter(rng):
     hint = rng.choice(['-', '-', str(mx), str(mx), str(min(5, mx + 1)), '5'])
     return ''.join(stat), ''.join(dyn), hint
 
+import re
+def model_case(case):
+    """`wc t c i` (an emission inside a future carrying collector c, polled on thread t) is `sd t c ; em t i ; pd t` to the model"""
+    return re.sub(r'wc (\d+) (\d+) (\d+)', r'sd \1 \2 ; em \1 \3 ; pd \1', case)
+
 def gen_history(rng, nops, style='cache', static=5):
     ops = ['static=%d' % static]
     handles = set(); created = 0; nthreads = 1
@@ -52,6 +57,9 @@ def gen_history(rng, nops, style='cache', static=5):
             ops.append('nc %d %s %s %s' % (created, st, dy, h)); handles.add(created)
         elif r < 0.14 and handles:
             c = rng.choice(sorted(handles)); handles.discard(c); ops.append('dh %d' % c)
+        elif style == 'scope' and handles and rng.random() < 0.08:
+            # a scope in its third form: a future carrying its own collector, polled on some thread
+            ops.append('wc %d %d %d' % (rng.randrange(nthreads), rng.choice(sorted(handles)), rng.randrange(NCS)))
         elif r < 0.14 + 0.10 * w_scope and (handles or rng.random() < 0.05):
             t = rng.randrange(nthreads)
             c = rng.choice(sorted(handles)) if handles and rng.random() < 0.97 else rng.randrange(1, 8)
